@@ -42,7 +42,10 @@ LEVEL_TEXT = ("Seeded schedules of the gateway context on a virtual-time loop: e
               "visible exception, asyncio.all_tasks after exit, disconnect calls, the disk image at exit and after "
               "every completed save (re-loaded and compared with the registry as of that save's start) and the "
               "<= 900 s cadence between consecutive saves. The exit-instant grid (0..9 s in 0.5 s steps x 4 latency "
-              "profiles x 4 transports) is swept completely in the thorough tier.")
+              "profiles x 4 transports) is swept completely in the thorough tier. Also: cancellation while connecting or "
+              "inside the body, a link failure inside the body (reset / broker gone / read error; propagated or caught), "
+              "a second context on the same Gateway object (also after a disk fault), and 1900 virtual seconds after "
+              "exit in which no task may run and nothing may touch the disk.")
 LEVEL_NOTE = ("Trusted: executor jobs are atomic events on the loop thread (thread overlap inside aiofiles not "
               "modelled); the I/O time of a save is not counted against the cadence; built-in transports cannot fail "
               "on disconnect (they absorb errors), so disconnect faults use the injected transport.")
